@@ -1,15 +1,23 @@
 import SarpyModel.Drivers.Util
 import SarpyModel.Spec.XsdFmt
+import SarpyModel.Spec.XsdVersion
 /-
   Line protocol for the C06 model (no spaces inside a token):
 
     xsd rt    <tabs> <class id> <tree>     -> tree          serialize (parse tree)
     xsd valid <schema> <type id> <tree>    -> 1 | 0         validB
     xsd conf  <rows> <model>               -> <strict><weak>  e.g. 11, 01, 00
+    xsd confg <rows> <model> <dIf> <dUnless> -> <strict><weak><guards>   (tag lists joined by ',', '-' = empty)
+    xsd vreq  <base> <since,since,...>      -> version index       Spec.XsdVersion.requiredList ('-' = no present feature)
 
   <tree>   nodes in preorder joined by ';', a node is  tag,nkids,text,attr=val,attr=val...   (text / val xsdHex encoded, '-' = empty)
-  <tabs>   classes joined by ';', a class is  id/rows/children     rows = tag.kind joined by ','  (kind a|s|m)
+  <tabs>   classes joined by ';', a class is  id/rows/children[/dIf/dUnless/derive]
+                                                                  rows = tag.kind joined by ','  (kind a|s|m|d), element rows in OUTPUT order
                                                                   children = tag.classid joined by ','   (default class 0)
+                                                                  dIf, dUnless = legacy guard tags of a from_node override, joined by ','
+                                                                  derive = tag.when.when... joined by ',': the read-only property `tag` is written
+                                                                  iff no `when` tag is given or a child with one of them is present (text "0": values
+                                                                  are compared by the oracle, not by the model)
            classes that are not listed are opaque
   <schema> types joined by ';', a type is  id/attrs/groups/children
            attrs = name.r|name.o joined by ','     groups joined by ',':  e.tag.min.max  |  c.opt.alt|alt  with alt = tag.min.max+tag.min.max
@@ -24,7 +32,8 @@ def xsdParseRow (s : String) : Option Row :=
   match s.splitOn "." with
   | [t, k] => do
     let tag ← t.toNat?
-    let kind ← (match k with | "a" => some RowKind.attr | "s" => some RowKind.single | "m" => some RowKind.multi | _ => none)
+    let kind ← (match k with | "a" => some RowKind.attr | "s" => some RowKind.single | "m" => some RowKind.multi
+                              | "d" => some RowKind.derived | _ => none)
     pure ⟨tag, kind⟩
   | _ => none
 
@@ -38,13 +47,32 @@ def xsdLookupD (m : List (Nat × Nat)) (d : Nat) (k : Nat) : Nat :=
   | some p => p.2
   | none => d
 
+def xsdParseNats (s : String) : Option (List Nat) := (xsdSplit s ",").mapM (·.toNat?)
+
+def xsdParseWhen (s : String) : Option (Nat × List Nat) :=
+  match s.splitOn "." with
+  | t :: ws => do pure (← t.toNat?, ← ws.mapM (·.toNat?))
+  | _ => none
+
+/-- the driver's stand-in for the read-only properties: written iff one of the `when` children is present (always, if none is named) -/
+def xsdDerive (spec : List (Nat × List Nat)) (tag : Name) (ks : List Xml) : Option String :=
+  match spec.find? (fun p => p.1 == tag) with
+  | none => none
+  | some p => if p.2.isEmpty || p.2.any (fun w => (tagsOf ks).contains w) then some "0" else none
+
 def xsdParseClass (s : String) : Option (Nat × ClassEntry) :=
   match s.splitOn "/" with
   | [i, rows, ch] => do
     let id ← i.toNat?
     let rs ← (xsdSplit rows ",").mapM xsdParseRow
     let cm ← (xsdSplit ch ",").mapM xsdParsePairNat
-    pure (id, ⟨rs, xsdLookupD cm 0⟩)
+    pure (id, ⟨rs, xsdLookupD cm 0, fun _ _ => none, [], []⟩)
+  | [i, rows, ch, dif, dun, der] => do
+    let id ← i.toNat?
+    let rs ← (xsdSplit rows ",").mapM xsdParseRow
+    let cm ← (xsdSplit ch ",").mapM xsdParsePairNat
+    let spec ← (xsdSplit der ",").mapM xsdParseWhen
+    pure (id, ⟨rs, xsdLookupD cm 0, xsdDerive spec, ← xsdParseNats dif, ← xsdParseNats dun⟩)
   | _ => none
 
 def parseTabs (s : String) : Option Tabs := do
@@ -180,6 +208,19 @@ def xsdStep (toks : List String) : Option String :=
     | [attrs, groups] =>
       let m ← parseModelParts attrs groups
       pure (xsdB01 (conformsB rs m) ++ xsdB01 (conformsWeakB rs m))
+    | _ => none
+  | ["vreq", base, sinces] => do
+    let b ← base.toNat?
+    let vs ← xsdParseNats (if sinces == "-" then "" else sinces)
+    pure (toString (Sarpy.Spec.XsdVersion.requiredList b vs))
+  | ["confg", rows, model, dif, dun] => do
+    let rs ← (xsdSplit rows ",").mapM xsdParseRow
+    match model.splitOn "/" with
+    | [attrs, groups] =>
+      let m ← parseModelParts attrs groups
+      let a ← xsdParseNats (if dif == "-" then "" else dif)
+      let b ← xsdParseNats (if dun == "-" then "" else dun)
+      pure (xsdB01 (conformsB rs m) ++ xsdB01 (conformsWeakB rs m) ++ xsdB01 (guardsOKB a b m))
     | _ => none
   | _ => none
 
